@@ -89,6 +89,202 @@ type c30Chain struct {
 	certD   []crypto.Digest
 	scratch string
 	seq     atomic.Uint64
+
+	// real-certificate lane (production authenticator): online voters with real VRF / one-time keys
+	real     bool
+	voters   []*c30Voter
+	weight   []map[string]uint64                  // per round: vote key -> verified committee weight (cert step)
+	forged   []map[string]*c30Forged              // per round: "<step>/<same|alt>" -> genuine bundle of another step
+	altBlk   []bookkeeping.Block                  // per round: a different valid block for that round (never certified)
+}
+
+type c30Voter struct {
+	addr  basics.Address
+	vrfPK crypto.VrfPubkey
+	vrfSK crypto.VrfPrivkey
+	ots   *crypto.OneTimeSignatureSecrets
+}
+
+type c30Forged struct {
+	blk    *bookkeeping.Block
+	bundle agreement.Certificate
+	weight uint64
+}
+
+type c30RNG struct{ r *kit.Rand }
+
+func (g c30RNG) RandBytes(b []byte) { g.r.Fill(b) }
+
+// c30Selector / c30RawVote / c30ProposalValue mirror the unexported agreement types (same codec
+// tags, same field types) so that votes can be produced outside package agreement with the exported
+// crypto primitives. The harness self-check (production Authenticate accepts every honest
+// certificate) fails if these encodings ever drift.
+type c30Selector struct {
+	_struct struct{}       `codec:""`
+	Seed    committee.Seed `codec:"seed"`
+	Round   basics.Round   `codec:"rnd"`
+	Period  uint64         `codec:"per"`
+	Step    uint64         `codec:"step"`
+}
+
+func (sel c30Selector) ToBeHashed() (protocol.HashID, []byte) {
+	return protocol.AgreementSelector, protocol.EncodeReflect(&sel)
+}
+
+func (sel c30Selector) CommitteeSize(p config.ConsensusParams) uint64 {
+	switch sel.Step {
+	case 0:
+		return p.NumProposers
+	case 1:
+		return p.SoftCommitteeSize
+	case 2:
+		return p.CertCommitteeSize
+	case 253:
+		return p.LateCommitteeSize
+	case 254:
+		return p.RedoCommitteeSize
+	case 255:
+		return p.DownCommitteeSize
+	}
+	return p.NextCommitteeSize
+}
+
+func c30Threshold(step uint64, p config.ConsensusParams) uint64 {
+	switch step {
+	case 1:
+		return p.SoftCommitteeThreshold
+	case 2:
+		return p.CertCommitteeThreshold
+	case 253:
+		return p.LateCommitteeThreshold
+	case 254:
+		return p.RedoCommitteeThreshold
+	case 255:
+		return p.DownCommitteeThreshold
+	}
+	return p.NextCommitteeThreshold
+}
+
+type c30ProposalValue struct {
+	_struct          struct{}       `codec:",omitempty,omitemptyarray"`
+	OriginalPeriod   uint64         `codec:"oper"`
+	OriginalProposer basics.Address `codec:"oprop"`
+	BlockDigest      crypto.Digest  `codec:"dig"`
+	EncodingDigest   crypto.Digest  `codec:"encdig"`
+}
+
+type c30RawVote struct {
+	_struct  struct{}         `codec:",omitempty,omitemptyarray"`
+	Sender   basics.Address   `codec:"snd"`
+	Round    basics.Round     `codec:"rnd"`
+	Period   uint64           `codec:"per"`
+	Step     uint64           `codec:"step"`
+	Proposal c30ProposalValue `codec:"prop"`
+}
+
+func (rv c30RawVote) ToBeHashed() (protocol.HashID, []byte) {
+	return protocol.Vote, protocol.EncodeReflect(&rv)
+}
+
+func c30VoteKey(e reflect.Value) string {
+	snd := e.FieldByName("Sender").Interface().(basics.Address)
+	cred := e.FieldByName("Cred").Interface().(committee.UnauthenticatedCredential)
+	sig := e.FieldByName("Sig").Interface().(crypto.OneTimeSignature)
+	return fmt.Sprintf("%x|%x|%x", snd[:], cred.Proof[:], protocol.Encode(&sig))
+}
+
+// c30MakeBundle builds a GENUINE bundle of the given step for blk: every online voter that the
+// sortition selects for (round, period 0, step) votes with a real credential and a real one-time
+// signature over the raw vote. It returns the bundle, the verified weight of every vote and the total.
+func (ch *c30Chain) c30MakeBundle(blk *bookkeeping.Block, step uint64, proposer basics.Address) (agreement.Certificate, map[string]uint64, uint64, error) {
+	var cert agreement.Certificate
+	rnd := blk.Round()
+	proto := config.Consensus[protocol.ConsensusCurrentVersion]
+	balRnd := agreement.BalanceRound(rnd, proto)
+	seed, err := ch.remote.Seed(rnd.SubSaturate(basics.Round(proto.SeedLookback)))
+	if err != nil {
+		return cert, nil, 0, err
+	}
+	total, err := ch.remote.Circulation(balRnd, rnd)
+	if err != nil {
+		return cert, nil, 0, err
+	}
+	pv := c30ProposalValue{OriginalProposer: proposer, BlockDigest: blk.Digest(), EncodingDigest: crypto.HashObj(blk)}
+	cert.Round = rnd
+	cert.Proposal.OriginalProposer = pv.OriginalProposer
+	cert.Proposal.BlockDigest = pv.BlockDigest
+	cert.Proposal.EncodingDigest = pv.EncodingDigest
+	reflect.ValueOf(&cert).Elem().FieldByName("Step").SetUint(step)
+	v := c30Votes(&cert)
+	sl := reflect.MakeSlice(v.Type(), 0, len(ch.voters))
+	weights := map[string]uint64{}
+	sum := uint64(0)
+	for _, vt := range ch.voters {
+		rec, err := ch.remote.LookupAgreement(balRnd, vt.addr)
+		if err != nil {
+			return cert, nil, 0, err
+		}
+		sel := c30Selector{Seed: seed, Round: rnd, Step: step}
+		ucred := committee.MakeCredential(&vt.vrfSK, sel)
+		m := committee.Membership{Record: committee.BalanceRecord{OnlineAccountData: rec, Addr: vt.addr}, Selector: sel, TotalMoney: total}
+		vc, err := ucred.Verify(proto, m)
+		if err != nil || vc.Weight == 0 {
+			continue // not selected for this committee
+		}
+		rv := c30RawVote{Sender: vt.addr, Round: rnd, Step: step, Proposal: pv}
+		id := basics.OneTimeIDForRound(rnd, proto.EffectiveKeyDilution(rec.VoteKeyDilution))
+		sig := vt.ots.Sign(id, rv)
+		if !rec.VoteID.Verify(id, rv, sig) {
+			return cert, nil, 0, fmt.Errorf("one-time signature of a freshly made vote does not verify")
+		}
+		e := reflect.New(v.Type().Elem()).Elem()
+		e.FieldByName("Sender").Set(reflect.ValueOf(vt.addr))
+		e.FieldByName("Cred").Set(reflect.ValueOf(ucred))
+		e.FieldByName("Sig").Set(reflect.ValueOf(sig))
+		sl = reflect.Append(sl, e)
+		weights[c30VoteKey(e)] = vc.Weight
+		sum += vc.Weight
+	}
+	v.Set(sl)
+	return cert, weights, sum, nil
+}
+
+// refCertOK is the lane-2 reference for "this is a certificate for the honest block of round r":
+// cert step, period 0, the honest proposal value, no equivocation votes, every vote one of the genuine
+// cert-step votes of that round, distinct senders, total verified weight reaching the cert threshold.
+// (Any such subset is a legitimate certificate; the exact stored one is not required.)
+func (ch *c30Chain) refCertOK(r basics.Round, cert *agreement.Certificate) (bool, string) {
+	hc := ch.cert[r]
+	cv := reflect.ValueOf(cert).Elem()
+	if cv.FieldByName("Step").Uint() != 2 {
+		return false, fmt.Sprintf("step is %d, a certificate has step 2 (cert)", cv.FieldByName("Step").Uint())
+	}
+	if cv.FieldByName("Period").Uint() != 0 || cert.Round != r || cert.Proposal != hc.Proposal {
+		return false, "round / period / proposal value differ from the certified ones"
+	}
+	if cv.FieldByName("EquivocationVotes").Len() != 0 {
+		return false, "equivocation votes present (the honest chain has none)"
+	}
+	votes := c30Votes(cert)
+	seen := map[basics.Address]bool{}
+	sum := uint64(0)
+	for i := 0; i < votes.Len(); i++ {
+		e := votes.Index(i)
+		w, ok := ch.weight[r][c30VoteKey(e)]
+		if !ok {
+			return false, "contains a vote that is not one of the genuine cert-step votes of this round"
+		}
+		snd := e.FieldByName("Sender").Interface().(basics.Address)
+		if seen[snd] {
+			return false, "duplicate voter"
+		}
+		seen[snd] = true
+		sum += w
+	}
+	if th := config.Consensus[protocol.ConsensusCurrentVersion].CertCommitteeThreshold; sum < th {
+		return false, fmt.Sprintf("weight %d below the cert threshold %d", sum, th)
+	}
+	return true, ""
 }
 
 func c30FillRandom(v reflect.Value, r *kit.Rand) {
@@ -151,14 +347,18 @@ func c30OpenLedger(ch *c30Chain, name string) (*data.Ledger, error) {
 	return data.LoadLedger(c30Logger(), prefix, true, protocol.ConsensusCurrentVersion, gb, c30GenesisID, ch.genHash, cfg)
 }
 
-func c30BuildChain(c *kit.Ctx, tip int) *c30Chain {
+func c30BuildChain(c *kit.Ctx, tip int, real bool) *c30Chain {
 	r := c.Rand(3000)
-	ch := &c30Chain{scratch: c.Scratch("c30"), tip: basics.Round(tip)}
+	ch := &c30Chain{scratch: c.Scratch("c30"), tip: basics.Round(tip), real: real}
 	proto := config.Consensus[protocol.ConsensusCurrentVersion]
 	var users []basics.Address
 	keys := map[basics.Address]*crypto.SignatureSecrets{}
 	gen := map[basics.Address]basics.AccountData{}
-	for i := 0; i < 4; i++ {
+	nusers := 4
+	if real {
+		nusers = 6
+	}
+	for i := 0; i < nusers; i++ {
 		var seed crypto.Seed
 		copy(seed[:], r.Bytes(32))
 		s := crypto.GenerateSignatureSecrets(seed)
@@ -166,6 +366,21 @@ func c30BuildChain(c *kit.Ctx, tip int) *c30Chain {
 		users = append(users, a)
 		keys[a] = s
 		gen[a] = basics.AccountData{Status: basics.Offline, MicroAlgos: basics.MicroAlgos{Raw: proto.MinBalance * 100000}}
+		if real { // the users hold all online stake and vote in every committee
+			var vs [32]byte
+			copy(vs[:], r.Bytes(32))
+			vt := &c30Voter{addr: a}
+			vt.vrfPK, vt.vrfSK = crypto.VrfKeygenFromSeed(vs)
+			vt.ots = crypto.GenerateOneTimeSignatureSecretsRNG(0, 2, c30RNG{c.Rand(3005, uint64(i))})
+			ch.voters = append(ch.voters, vt)
+			d := gen[a]
+			d.Status = basics.Online
+			d.VoteID = vt.ots.OneTimeSignatureVerifier
+			d.SelectionID = vt.vrfPK
+			d.VoteLastValid = 100000
+			d.VoteKeyDilution = proto.DefaultKeyDilution
+			gen[a] = d
+		}
 	}
 	gen[sinkAddr] = basics.AccountData{Status: basics.Offline, MicroAlgos: basics.MicroAlgos{Raw: proto.MinBalance * 2000000}}
 	gen[poolAddr] = basics.AccountData{Status: basics.Offline, MicroAlgos: basics.MicroAlgos{Raw: proto.MinBalance * 2000000}}
@@ -183,6 +398,14 @@ func c30BuildChain(c *kit.Ctx, tip int) *c30Chain {
 		return nil
 	}
 	ch.add(g, agreement.Certificate{})
+	ch.weight = append(ch.weight, nil)
+	ch.forged = append(ch.forged, nil)
+	ch.altBlk = append(ch.altBlk, bookkeeping.Block{})
+	var avv *agreement.AsyncVoteVerifier
+	if real {
+		avv = agreement.MakeAsyncVoteVerifier(nil)
+		defer avv.Quit()
+	}
 	noteCtr := 0
 	for rnd := basics.Round(1); rnd <= ch.tip; rnd++ {
 		prev, err := ch.remote.BlockHdr(rnd - 1)
@@ -224,7 +447,50 @@ func c30BuildChain(c *kit.Ctx, tip int) *c30Chain {
 		var seed committee.Seed
 		copy(seed[:], r.Bytes(32))
 		blk := ub.FinishBlock(seed, proposer, false)
-		cert := c30MakeCert(r, &blk)
+		var cert agreement.Certificate
+		if real {
+			var ws map[string]uint64
+			var sum uint64
+			cert, ws, sum, err = ch.c30MakeBundle(&blk, 2, proposer)
+			if err != nil {
+				c.Harness("cannot build a real certificate for round %d: %v", rnd, err)
+				return nil
+			}
+			ch.weight = append(ch.weight, ws)
+			// harness self-check: the PRODUCTION authenticator accepts the honest certificate
+			if aerr := cert.Authenticate(blk, ch.remote, avv); aerr != nil {
+				c.Harness("honest real certificate of round %d (weight %d) is refused by Certificate.Authenticate: %v", rnd, sum, aerr)
+				return nil
+			}
+			// genuine bundles of the other steps, for the same block and for a competing valid block
+			var altSeed committee.Seed
+			copy(altSeed[:], r.Bytes(32))
+			alt := ub.FinishBlock(altSeed, users[r.Intn(len(users))], false)
+			ch.altBlk = append(ch.altBlk, alt)
+			fm := map[string]*c30Forged{}
+			for _, step := range []uint64{1, 3, 4, 253, 254, 255} {
+				for vi, target := range []*bookkeeping.Block{&blk, &alt} {
+					b, _, w, berr := ch.c30MakeBundle(target, step, proposer)
+					if berr != nil {
+						c.Harness("cannot build a step-%d bundle for round %d: %v", step, rnd, berr)
+						return nil
+					}
+					if w < c30Threshold(step, proto) {
+						c.Count("forged_bundles_below_their_threshold", 1)
+						continue // not a genuine quorum of that step: not interesting
+					}
+					tb := *target
+					fm[fmt.Sprintf("%d/%s", step, []string{"same", "alt"}[vi])] = &c30Forged{blk: &tb, bundle: b, weight: w}
+					c.Count("genuine_non_cert_bundles_built", 1)
+				}
+			}
+			ch.forged = append(ch.forged, fm)
+		} else {
+			cert = c30MakeCert(r, &blk)
+			ch.weight = append(ch.weight, nil)
+			ch.forged = append(ch.forged, nil)
+			ch.altBlk = append(ch.altBlk, bookkeeping.Block{})
+		}
 		if err := ch.remote.AddBlock(blk, cert); err != nil {
 			c.Harness("remote AddBlock: %v", err)
 			return nil
@@ -308,6 +574,32 @@ func (a *c30Auth) Authenticate(blk *bookkeeping.Block, cert *agreement.Certifica
 	return nil
 }
 
+// c30RealAuth is the lane-2 authenticator: what node.blockAuthenticatorImpl does (the production
+// agreement.Certificate.Authenticate against the node's own ledger), plus recording.
+type c30RealAuth struct {
+	m   *c30Monitor
+	l   agreement.LedgerReader
+	avv *agreement.AsyncVoteVerifier
+}
+
+func (a *c30RealAuth) Quit() {}
+func (a *c30RealAuth) Authenticate(blk *bookkeeping.Block, cert *agreement.Certificate) error {
+	err := cert.Authenticate(*blk, a.l, a.avv)
+	a.m.mu.Lock()
+	a.m.authAsked++
+	if err == nil {
+		a.m.approved[c30Pair{c30FullDigest(blk), c30CertDigest(cert)}] = true
+	} else {
+		a.m.authRefused++
+	}
+	a.m.mu.Unlock()
+	a.m.c.Count("authenticator_asked", 1)
+	if err != nil {
+		a.m.c.Count("authenticator_refused", 1)
+	}
+	return err
+}
+
 type c30Ledger struct {
 	*data.Ledger
 	m *c30Monitor
@@ -346,6 +638,13 @@ func (m *c30Monitor) judge(path string, blk *bookkeeping.Block, cert *agreement.
 	}
 	if r < 1 || r > m.ch.tip || fd != m.ch.full[r] {
 		keys = append(keys, "write-not-honest-block")
+	} else if m.ch.real && path != "EnsureBlock" {
+		if ok, why := m.ch.refCertOK(r, cert); !ok {
+			keys = append(keys, "write-wrong-certificate")
+			detail["why_not_a_certificate"] = why
+		} else if cd != m.ch.certD[r] {
+			m.c.Count("writes_with_other_valid_certificate_of_same_block", 1)
+		}
 	} else if cd != m.ch.certD[r] {
 		keys = append(keys, "write-wrong-certificate")
 	}
@@ -590,6 +889,17 @@ func (a *c30Adversary) otherRound(r *kit.Rand, rnd basics.Round) basics.Round {
 
 func (a *c30Adversary) attack(r *kit.Rand, rnd basics.Round) c30Answer {
 	ch := a.ch
+	if ch.real && r.Chance(2, 5) {
+		// a GENUINE bundle of another step (real credentials and signatures reaching that step's
+		// threshold) in the certificate slot: for the honest block, or for a competing valid block
+		steps := []uint64{1, 1, 1, 3, 4, 253, 254, 255}
+		step := steps[r.Intn(len(steps))]
+		which := []string{"same", "alt"}[r.Intn(2)]
+		if f := ch.forged[rnd][fmt.Sprintf("%d/%s", step, which)]; f != nil {
+			name := map[uint64]string{1: "soft", 3: "next", 4: "next1", 253: "late", 254: "redo", 255: "down"}[step]
+			return c30Answer{Kind: "genuine-" + name + "-bundle-" + which + "-block", Block: c30CloneBlock(*f.blk), Cert: c30CloneCert(f.bundle)}
+		}
+	}
 	o := a.otherRound(r, rnd)
 	hb, hc := ch.blk[rnd], ch.cert[rnd]
 	switch r.Pick([]int{6, 8, 14, 8, 10, 6, 8, 6, 6, 6, 4, 3}) {
@@ -919,10 +1229,14 @@ func c30RunCase(c *kit.Ctx, ch *c30Chain, i int, mode int, sanity bool, vpool ex
 	cfg.CatchupHTTPBlockFetchTimeoutSec = 1 // only shortens how long a "late" peer can stall a request
 	cfg.CatchupGossipBlockFetchTimeoutSec = 1
 	cfg.CatchupParallelBlocks = uint64([]int{2, 4, 16}[r.Intn(3)])
-	s := MakeService(c30Logger(), cfg, net, wl, &c30Auth{m: mon}, nil, vpool)
-	s.testStart()
 	verifier := agreement.MakeAsyncVoteVerifier(nil)
 	defer verifier.Quit()
+	var auth BlockAuthenticator = &c30Auth{m: mon}
+	if ch.real {
+		auth = &c30RealAuth{m: mon, l: wl, avv: verifier}
+	}
+	s := MakeService(c30Logger(), cfg, net, wl, auth, nil, vpool)
+	s.testStart()
 	external := r.Chance(1, 5)
 	done := make(chan struct{})
 	go func() {
@@ -996,7 +1310,7 @@ func c30RunCase(c *kit.Ctx, ch *c30Chain, i int, mode int, sanity bool, vpool ex
 	return
 }
 
-func c30Run(t *testing.T, part string, mode int, sanity bool, nQuick, nThorough, tipQuick, tipThorough int) {
+func c30Run(t *testing.T, part string, mode int, sanity bool, real bool, nQuick, nThorough, tipQuick, tipThorough int) {
 	c := kit.Start(t, "C30", part)
 	defer c.Finish()
 	ncases, tip := c.N(nQuick, nThorough), c.N(tipQuick, tipThorough)
@@ -1007,7 +1321,7 @@ func c30Run(t *testing.T, part string, mode int, sanity bool, nQuick, nThorough,
 	c.Assume("lane 1 authenticator: a recording oracle approving exactly the honest (header hash, certificate) pair of a round, header-only like agreement.Certificate.Authenticate; certificates are synthetic (right round/digest, PRNG votes); the production authenticator over real certificates is not exercised here")
 	c.Assume("fetch timeouts are configured to 1 s (only bounds how long a hanging peer stalls a request); CatchupBlockValidateMode is " + strconv.Itoa(mode))
 	logging.Base().SetOutput(io.Discard)
-	ch := c30BuildChain(c, tip)
+	ch := c30BuildChain(c, tip, real)
 	if ch == nil {
 		return
 	}
@@ -1018,6 +1332,11 @@ func c30Run(t *testing.T, part string, mode int, sanity bool, nQuick, nThorough,
 		defer ep.Shutdown()
 		vpool = execpool.MakeBacklog(ep, 0, execpool.LowPriority, t)
 		defer vpool.Shutdown()
+	}
+	caseBase := mode * 100000
+	if real {
+		caseBase = 700000
+		c.Assume("lane 2: the authenticator is the production agreement.Certificate.Authenticate against the node's own ledger; certificates and the forged bundles are REAL (online genesis accounts holding all online stake, real VRF credentials and one-time signatures built with mirror structs of the unexported vote/selector types; self-check: production Authenticate accepts every honest certificate)")
 	}
 	// cases are independent nodes; a few run side by side
 	var wg sync.WaitGroup
@@ -1032,7 +1351,7 @@ func c30Run(t *testing.T, part string, mode int, sanity bool, nQuick, nThorough,
 				if i >= ncases || c.Violations() > 5 {
 					return
 				}
-				res := c30RunCase(c, ch, mode*100000+i, mode, sanity, vpool)
+				res := c30RunCase(c, ch, caseBase+i, mode, sanity, vpool)
 				c.Count("cases", 1)
 				if res.reachedTip {
 					c.Count("cases_reaching_tip", 1)
@@ -1049,9 +1368,17 @@ func c30Run(t *testing.T, part string, mode int, sanity bool, nQuick, nThorough,
 	// thresholds scale with the number of cases of the part (observed rates are >= 4x these)
 	c.Require("responses_served_ahead_of_ledger", int64(max(5, ncases)))
 	c.Require("attack:payset-tampered", int64(max(2, ncases/3)))
-	c.Require("attack:other-round-relabelled", int64(max(1, ncases/8)))
-	c.Require("attack:cert-of-other-round-relabelled", int64(max(1, ncases/8)))
+	if !real { // the real-certificate part spends 2/5 of its attacks on genuine non-cert bundles and has its own guards
+		c.Require("attack:other-round-relabelled", int64(max(1, ncases/8)))
+		c.Require("attack:cert-of-other-round-relabelled", int64(max(1, ncases/8)))
+	}
 	switch {
+	case real:
+		c.Require("writes_ok:AddBlock", int64(4*ncases))
+		c.Require("authenticator_refused", int64(2*ncases))
+		c.Require("attack:genuine-soft-bundle-same-block", int64(max(2, ncases/2)))
+		c.Require("attack:genuine-soft-bundle-alt-block", int64(max(2, ncases/2)))
+		c.Require("genuine_non_cert_bundles_built", int64(6*tip))
 	case sanity:
 		c.Require("sanity_writes_without_authentication_seen", 1)
 		c.Require("sanity_bogus_writes_seen", 1)
@@ -1068,10 +1395,14 @@ func c30Run(t *testing.T, part string, mode int, sanity bool, nQuick, nThorough,
 }
 
 // default configuration (CatchupBlockValidateMode = 0): certificate and payset verified, AddBlock path
-func TestVerifC30Default(t *testing.T) { c30Run(t, "default", 0, false, 24, 240, 28, 40) }
+func TestVerifC30Default(t *testing.T) { c30Run(t, "default", 0, false, false, 24, 240, 28, 40) }
 
 // mode 12: additionally validates the block through the ledger and writes with AddValidatedBlock
-func TestVerifC30FullValidation(t *testing.T) { c30Run(t, "fullvalidation", 12, false, 8, 80, 24, 32) }
+func TestVerifC30FullValidation(t *testing.T) { c30Run(t, "fullvalidation", 12, false, false, 8, 80, 24, 32) }
 
 // mode 3: certificate and payset checks switched off by configuration; monitor sensitivity only
-func TestVerifC30SanityChecksOff(t *testing.T) { c30Run(t, "sanity-checks-off", 3, true, 6, 24, 20, 28) }
+func TestVerifC30SanityChecksOff(t *testing.T) { c30Run(t, "sanity-checks-off", 3, true, false, 6, 24, 20, 28) }
+
+// lane 2: production certificate authenticator over real certificates; peers additionally serve
+// genuine soft / next / late / redo / down bundles in the certificate slot
+func TestVerifC30RealCerts(t *testing.T) { c30Run(t, "realcerts", 0, false, true, 10, 80, 16, 24) }
